@@ -140,7 +140,7 @@ func checkSuccessProbability(p *core.Program, r *core.Report) {
 	name := core.FuncName(sp)
 	pos := p.Pos(sp.Pos())
 	var recv, cp *ssa.Alloc
-	for _, in := range sp.Blocks[0].Instrs {
+	core.Instrs(sp, func(in ssa.Instruction) {
 		if al, ok := in.(*ssa.Alloc); ok {
 			if paramCopiedInto(al) == 0 {
 				recv = al
@@ -148,7 +148,7 @@ func checkSuccessProbability(p *core.Program, r *core.Report) {
 				cp = al
 			}
 		}
-	}
+	})
 	if recv == nil || cp == nil {
 		r.Unrecognised("R13.7", name, "works on an explicit modified copy of the recipe", pos, "receiver copy / relaxed copy not found")
 		return
@@ -176,6 +176,9 @@ func checkSuccessProbability(p *core.Program, r *core.Report) {
 				okAC = true
 			}
 		}
+	}
+	if !okAC {
+		okAC = isAllowPlusRequiredBuilder(sp, lit["AllowChars"], fromRecv)
 	}
 	r.Check(okAC, "R13.7", name, "relaxed AllowChars = AllowChars + all custom required characters", pos, core.Describe(lit["AllowChars"]))
 	okRS := false
@@ -660,4 +663,66 @@ func inAttemptBudgetLoop(loops []*core.Loop, site ssa.Instruction) bool {
 		}
 	}
 	return false
+}
+
+// isAllowPlusRequiredBuilder: v is b.String() of a local strings.Builder that
+// received exactly WriteString(recv.AllowChars) once, outside any loop, and then
+// WriteString(element) unconditionally in a full range sweep over recv.RequireSets.
+func isAllowPlusRequiredBuilder(f *ssa.Function, v ssa.Value, fromRecv func(ssa.Value, string) bool) bool {
+	sc, isCall := v.(*ssa.Call)
+	if !isCall || core.CallName(sc) != "(*strings.Builder).String" {
+		return false
+	}
+	b, isAl := sc.Call.Args[0].(*ssa.Alloc)
+	if !isAl {
+		return false
+	}
+	loops := core.Loops(f)
+	var first, swept *ssa.Call
+	for _, ref := range core.Referrers(b) {
+		c, isC := ref.(*ssa.Call)
+		if !isC {
+			if _, dbg := ref.(*ssa.DebugRef); dbg {
+				continue
+			}
+			return false
+		}
+		switch core.CallName(c) {
+		case "(*strings.Builder).String", "(*strings.Builder).Grow", "(*strings.Builder).Len":
+		case "(*strings.Builder).WriteString":
+			l := core.InnermostLoop(loops, c.Block())
+			if l == nil {
+				if first != nil || !fromRecv(c.Call.Args[1], "AllowChars") {
+					return false
+				}
+				first = c
+				continue
+			}
+			ri, ok := core.AsRange(l)
+			if swept != nil || !ok || ri.Kind != "slice" || !fromRecv(ri.X, "RequireSets") {
+				return false
+			}
+			for _, la := range l.Latch {
+				if !c.Block().Dominates(la) {
+					return false
+				}
+			}
+			ld, isLd := c.Call.Args[1].(*ssa.UnOp)
+			if !isLd {
+				return false
+			}
+			ia, isIA := ld.X.(*ssa.IndexAddr)
+			if !isIA || ia.Index != ri.Index || !sameSliceLoad(ia.X, ri.X) {
+				return false
+			}
+			swept = c
+		default:
+			return false
+		}
+	}
+	if first == nil || swept == nil || !core.InstrDominates(first, swept) {
+		return false
+	}
+	l := core.InnermostLoop(loops, swept.Block())
+	return !l.Blocks[sc.Block()] && l.Header.Dominates(sc.Block())
 }
